@@ -66,6 +66,16 @@ def check(run):
     for l, a, b in zip(lines1, o0, o1):
         if a != b:
             oracle_fail.append((cfg, l, "same as<T>()/is<T>() as for the copied string: " + a[:200], b[:200]))
+    # comparisons: a string operand gives the same twelve answers whether it is a variant (linked or copied), a std::string,
+    # a C string, a flash string, a string_view or a JsonString (the harness appends a marker when two kinds disagree);
+    # bytes >= 0x80 and embedded NUL included
+    cstrs = [b"", b"a", b"ab", b"b", b"zone", b"\xc3\xa9t\xc3\xa9", b"\x80", b"\xff", b"a\x80", b"a\x7f", b"a\0b", b"a\0", b"\xe2\x82\xac"]
+    clines = [f"CMP s{hx(x)} s{hx(y)}" for x in cstrs for y in cstrs]
+    mism, _, oc = vlib.correspond(run, model, implN, clines, cfg, "string comparisons across operand kinds")
+    all_mism += [(cfg, m) for m in mism]
+    for l, o in zip(clines, oc):
+        if o != "<crash>" and "DIFFERS" in o:
+            oracle_fail.append((cfg, l, "the same comparison results whatever C++ type carries the string operand", o[:200]))
     run.cov["rule"] = ("the C04 history generator's histories replayed with every string operand (values, keys, lookup keys, removal keys) given as each of %d source "
                        "kinds (%s); copied sources are overwritten right after the call; after every operation results and dumps must equal the tree model's, which has no "
                        "notion of storage; strings include empty, NUL-containing (sized kinds), repeated (sharing) ones; numeric conversions on linked vs copied; "
